@@ -54,7 +54,7 @@ def harnesses():
             if wn == "text":
                 continue   # from_str_radix under a symbolic radix: 6-9 GB and no verdict in 600 s at 8 bits; C09's parse harnesses decide its values
             out.append(H("c04_closure_decoders_%d_%s" % (b, wn), "C04", "c04::closure_decoders::<%d,%d,%d,%d>" % (b, l, nb + 1, w),
-                         unwind=max(nb + 4, 8), tier="quick" if (b == 8 or (b == 65 and w == 2)) else "thorough",
+                         unwind=max(nb + 4, 8), tier="quick" if b in (8, 65) else "thorough",
                          inst="Uint<%d,%d>" % (b, l), stubs=[("alloc::fmt::format", "stubs::format_stub")], timeout=1800,
                          role="c04::closure_decoders." + wn,
                          domain=["u64 digit strings of symbolic length 0..=3 in base 3/10/1000/2^32 (LE and BE), 2-limb slices",
